@@ -117,7 +117,7 @@ func hashEntry(p *load.Prog, r *report.Report, prop string, fn *ssa.Function, cf
 		if class == "empty DST" {
 			r.Check(res.Exit == "panic", prop+".emptydst", construct, pos, "panics before any hashing", "an empty DST does not panic")
 			if res.Exit == "panic" {
-				for _, h := range res.It.Hashes {
+				for _, h := range res.It.Hashes[res.It.InitHashes:] {
 					if h.Sums > 0 || len(h.Pending) > 0 {
 						r.Fail(prop+".emptydst", construct+" order", pos, "hashing starts before the empty-DST check")
 					}
